@@ -26,6 +26,21 @@ CLAIMED = {
  "C06": dict(design="5 (C06)", technique="Lean 4 theorems generic in the factory + exhaustive constructor sweep",
    text="Theorems (Midi/Props/C06.lean): for EVERY factory F and all valid arguments each named constructor passes from_bytes_unchecked exactly the bytes the property describes (status = type + channel, 14-bit split low/high, unused bytes zero, valid, of the named type); the structured form of those bytes has exactly the arguments as fields and the bytes are canonical; Raw/Structured corollaries; generic constructors panic iff wrong category, else bytes unchanged; test_util shorthands panic iff an argument is out of range. Tie: every argument tuple of every named constructor (6.5M calls) on Raw and Structured (thorough: + 2 foreign implementors), generic constructors for all 23 types, shorthands over all u8/u16 arguments incl. out-of-range (catch_unwind, panic site compared).",
    note=TB + "Modelled: panic sites by message text; assert_eq!/expect semantics."),
+ "C07": dict(design="6 (C07)", technique="Lean 4 theorems for all messages and all describable scanner states + encoder sweep + product exploration + end-to-end oracle",
+   text="Theorems (Midi/Props/C07.lean): new succeeds iff controller < 32; lsb = msb + 32; encoding = [CC n, value/128; CC n+32, value%128] on the message's channel for Raw and Structured; roundtrip from EVERY state describable by a per-channel abstraction (all reachable states are, reachable_wf): first message yields nothing, second exactly the original. Tie: encoder swept over all channels x all 128 controller numbers x value sweep; scanner product exploration to a fixpoint + random histories; end-to-end oracle encode->feed on the real code.",
+   note=TB + "Scanner inputs are modelled as RawShortMessage bytes (any lawful implementor is equivalent by C03); the harness also feeds Structured and a foreign implementor."),
+ "C08": dict(design="6 (C08)", technique="Lean 4 theorem by induction over arbitrary histories (state = history abstraction) + product exploration to a fixpoint",
+   text="Theorem C08.exact: for ALL finite histories of feeds and resets (any length, all 16 channels, any valid message) the run never panics, every operation reports exactly justified14(history) - the property text as a function of the history alone - and so does the next input; corollaries: nothing else, LSB alone re-reports, stale MSB replaced, nothing after reset. Proof: invariant 'scanner state = last MSB CC per channel since reset' by induction over the operation list. Tie: exhaustive exploration of real scanner states x abstract alphabet compared with model and with justified14 evaluated on the implementation's history; seeded random histories over the full alphabet.",
+   note=TB + "derive(Copy, PartialEq, Default) modelled."),
+ "C09": dict(design="6 (C09)", technique="Lean 4 theorems for all message values, both orders, both targets + per-dimension sweeps",
+   text="Theorems (Midi/Props/C09.lean): the 8 constructors build exactly the described fields (7-bit <= 127, 14-bit implies data entry) and every valid message comes from one; to_short_messages = specPNEncoding slot by slot (101/99, 100/98, 6/38 in the requested order, 96/97; fourth slot filled iff 14-bit) for Raw and Structured, no slot-index panic; array conversion = MSB-first; controller constants regenerated. Tie: full sweep per dimension + seeded product samples through the real encoder.",
+   note=TB),
+ "C10": dict(design="6 (C10)", technique="Lean 4 theorems from every describable state; running forms by induction over unbounded length + exploration + end-to-end oracle",
+   text="Theorems (Midi/Props/C10.lean): from EVERY scanner state describable by a per-channel abstraction (includes all reachable), feeding the encoding of any valid 7-bit/inc/dec message (either order) or the LSB-first encoding of any 14-bit message reports nothing until the last CC and exactly the original there; running forms [x,y,MSB,MSB,...] and [x,y,LSB,MSB,LSB,MSB,...] of ANY length by induction. Tie: product exploration, random histories with injected encodings and running forms, end-to-end encode->feed oracle on the real code (100k quick / 2M thorough).",
+   note=TB),
+ "C11": dict(design="6 (C11)", technique="Lean 4 theorem by induction over arbitrary histories (four history functions = four state fields) + product exploration to a fixpoint",
+   text="Theorem C11.exact: for ALL finite histories the scanner reports exactly justifiedPN(history, input): CC 6/96/97 with both number halves received since reset; number = 128*latest MSB + latest LSB; registered iff the latest number byte was 100/101; 14-bit iff a CC 38 arrived after the latest number byte. Corollaries nothing_else, needs_complete_number, reported_fields. Tie: exhaustive exploration of real scanner states (1 channel quick; 2-channel products thorough) + seeded random histories, each compared with the model and with justifiedPN on the implementation's own history.",
+   note=TB),
 }
 
 NOT_YET = "check not built yet in this session (planned, see DESIGN.md); not claimed until its theorems and tie exist"
